@@ -174,7 +174,7 @@ def _arith(op, a, b):
                     return p
         # distribute over an If-tree with numeral leaves so that sign(x)*y stays linear
         for p, q in ((a, b), (b, a)):
-            if not _is_num(q) and _is_small_const_tree(p):
+            if not _is_num(q) and not _is_num(p) and _is_small_const_tree(p):
                 return _distribute(p, q)
         return a * b
     if op == "/":
@@ -194,7 +194,14 @@ def _is_small_const_tree(t, depth=4):
 
 def _distribute(tree, q):
     if _is_num(tree):
-        return _arith("*", tree, q)
+        v = _numval(tree)
+        if v == 1:
+            return q
+        if v == 0:
+            return tree
+        if v == -1:
+            return -q
+        return tree * q
     return mk_if(tree.arg(0), _distribute(tree.arg(1), q), _distribute(tree.arg(2), q))
 
 
